@@ -78,6 +78,7 @@ type State struct {
 	seq    int
 	dead   bool // path ended (panic proven unreachable, infeasible, ...)
 	ghostNote []string
+	opqDep string // the path branched on the unconstrained result of this un-contracted call
 }
 
 func (s *State) top() *frame { return s.frames[len(s.frames)-1] }
@@ -91,13 +92,14 @@ func (s *State) clone() *State {
 		trace: append([]Event(nil), s.trace...),
 		atLock: s.atLock,
 		seq:   s.seq,
+		opqDep: s.opqDep,
 	}
 	for k, v := range s.heap {
 		n.heap[k] = v
 	}
 	for _, f := range s.frames {
 		nf := &frame{fn: f.fn, vals: make(map[ssa.Value]Value, len(f.vals)), defers: append([]deferred(nil), f.defers...),
-			locals: make(map[string]Value, len(f.locals)), localIsAddr: make(map[string]bool, len(f.localIsAddr)), entry: f.entry,
+			locals: make(map[string]Value, len(f.locals)), localIsAddr: make(map[string]bool, len(f.localIsAddr)), entry: f.entry, entryClock: f.entryClock,
 			openLoops: make(map[*ssa.BasicBlock]bool, len(f.openLoops)),
 			rangeVisited: make(map[*ssa.Range]Term, len(f.rangeVisited)), rangeMap: make(map[*ssa.Range]Value, len(f.rangeMap)),
 			namedResults: f.namedResults, loopTraceStart: make(map[*ssa.BasicBlock]int, len(f.loopTraceStart))}
@@ -170,6 +172,7 @@ type Obligation struct {
 	decls   *Decls
 	Witness []WitnessTerm
 	Values  map[string]string // witness values from the model (sat verdicts)
+	OpqDep  string            // the path branched on (or the goal mentions) the unconstrained result of this un-contracted call
 }
 
 // WitnessTerm names an input-describing term whose model value is extracted for replay.
@@ -727,7 +730,11 @@ func (c *Ctx) oblige(s *State, kind, name string, goal Term, pos, note string, p
 		c.obls = append(c.obls, &Obligation{Name: name, Fn: c.key, Kind: kind, Goal: goal, Pos: pos, Note: note, Props: props, Verdict: "syntactic", Backend: "syntactic", decls: c.d})
 		return
 	}
-	c.obls = append(c.obls, &Obligation{Name: name, Fn: c.key, Kind: kind, Assume: append([]Term(nil), s.pc...), Goal: goal, Pos: pos, Note: note, Props: props, decls: c.d, Witness: c.witness})
+	dep := s.opqDep
+	if i := strings.Index(goal.S, "opq|"); i >= 0 {
+		dep = opqName(goal.S[i:])
+	}
+	c.obls = append(c.obls, &Obligation{Name: name, Fn: c.key, Kind: kind, Assume: append([]Term(nil), s.pc...), Goal: goal, Pos: pos, Note: note, Props: props, decls: c.d, Witness: c.witness, OpqDep: dep})
 }
 
 func (c *Ctx) structural(ok bool, kind, name, pos, note string, props []string) {
